@@ -535,6 +535,11 @@ class ExprMixin:
         from .builtins_ import VSetOf
         if isinstance(container, VSetOf):
             container = container.inner
+        from .symex2 import VDictKeys
+        if isinstance(container, VDictKeys):
+            container = container.d
+        if isinstance(container, VDict):
+            return container.has(self.dict_key(st, container, x))
         if isinstance(container, (VListRef, VList)):
             l = st.lst(container)
             k = z3.Int(fresh_name('ink'))
